@@ -456,7 +456,7 @@ class Fn:
                 return self._append(inner, projs)
             c = op_const(op)
             if c is not None:
-                return (("const", repr(c.get("v", c.get("fn")))),) + tuple(projs)
+                return (("const", repr(self.const_value(c))),) + tuple(projs)
         elif k == "cfd":
             inner = self.canon(rv[1], see, depth + 1)
             return self._append(inner, projs)
@@ -489,11 +489,25 @@ class Fn:
                 out.append(p)
         return tuple(out)
 
+    def const_value(self, c):
+        """Value of a constant operand; promoted constants (`&"_"`) are
+        resolved through the promoted body's constants."""
+        if "v" in c:
+            return c["v"]
+        if "fn" in c:
+            return c["fn"]
+        if "promoted" in c:
+            proms = self.j.get("promoted") or []
+            i = c["promoted"]
+            if i < len(proms) and len(proms[i]) == 1:
+                return self.const_value(proms[i][0])
+        return None
+
     def canon_op(self, op, see_through=None):
         if is_place_operand(op):
             return self.canon(op_place(op), see_through)
         c = op_const(op)
-        return (("const", repr(c.get("v", c.get("fn")))),)
+        return (("const", repr(self.const_value(c))),)
 
     def chain_locals(self, place, see_through=None):
         """Locals on the single-definition resolution chain of a place."""
